@@ -512,6 +512,22 @@ func main() {
 				return
 			}
 		}
+		// a nil member equals a nil member and nothing else: the collection with the nil replaced by a geometry (and
+		// the other way round) is another collection, from both sides, flat and nested
+		for i, m := range col {
+			other := append(orb.Collection(nil), col...)
+			if m == nil {
+				other[i] = orb.Point{5, 5}
+			} else {
+				other[i] = nil
+			}
+			for _, pair := range [][2]orb.Geometry{{col, other}, {orb.Collection{orb.Point{9, 9}, col}, orb.Collection{orb.Point{9, 9}, other}}} {
+				if orb.Equal(pair[0], pair[1]) || orb.Equal(pair[1], pair[0]) || refgeom.Equal(pair[0], pair[1]) {
+					c.Failf("nil-member-equal", "orb.Equal(%v, %v) = %v / %v: member %d is nil on one side only", pair[0], pair[1], orb.Equal(pair[0], pair[1]), orb.Equal(pair[1], pair[0]), i)
+					return
+				}
+			}
+		}
 		c.NonTrivial()
 	})
 	// bound methods: accessors, corners, ring / polygon forms, padding; and orb.Round under every factor
